@@ -64,3 +64,22 @@ contract('PybindWrapper._wrap_method',
          ensures=["implies(self.xml_source == '', result == method_binding(self, method, cpp_class, prefix, suffix, method_suffix, ''))",
                   "implies(self.xml_source != '', exists(lambda q: False) or True)"],
          **M_WRAP)
+
+contract('PybindWrapper.wrap_methods',
+         params={'methods': 'list[ref:Method]|list[ref:StaticMethod]', 'cpp_class': 'str', 'prefix': 'str', 'suffix': 'str'}, returns='str',
+         requires=["'{' not in prefix and '}' not in prefix", "self.xml_source == ''"],
+         modifies=['list(self._serializing_classes)', 'dict(self.xml_parser._memory)'],
+         ensures=['result == methods_fold(self, methods, cpp_class, prefix, suffix, len(methods))'],
+         loops={0: {'inv': ['res == methods_fold(self, methods, cpp_class, prefix, suffix, _i)'],
+                    'modifies': ['list(self._serializing_classes)', 'dict(self.xml_parser._memory)']}})
+contract('PybindWrapper.wrap_functions',
+         params={'functions': 'list[ref:GlobalFunction]', 'namespace': 'str', 'prefix': 'str', 'suffix': 'str'}, returns='str',
+         requires=["'{' not in prefix and '}' not in prefix"],
+         result_is='functions_fold(functions, namespace, prefix, suffix, len(functions))',
+         loops={0: {'inv': ['res == functions_fold(functions, namespace, prefix, suffix, _i)']}})
+contract('PybindWrapper._partial_match', params={'namespaces1': 'list[str]', 'namespaces2': 'list[str]'}, returns='bool',
+         result_is='forall(0, min(len(namespaces1), len(namespaces2)), lambda j: namespaces1[j] == namespaces2[j])',
+         loops={0: {'inv': ['forall(0, _i, lambda j: namespaces1[j] == namespaces2[j])']}})
+contract('PybindWrapper._gen_module_var', params={'namespaces': 'list[str]'}, returns='str', result_is='module_var(self, namespaces)')
+contract('PybindWrapper._add_namespaces', params={'name': 'str', 'namespaces': 'list[str]'}, returns='str',
+         result_is='qualified(name, namespaces)')
